@@ -773,6 +773,30 @@ fn vf_check(c: &mut Case, logic: Logic, kind: Kind, n: usize) {
     let cells = bound_cells(logic, n);
     let bound_bits = cells * b + 3 * 64;
     let bits = h * 8;
+    // Known finding K01 is specific: between 100001 and 800000 keys the unsharded
+    // logic sizes its graph with c = 0.168 + ln ln 300000 / ln ln (n + 200000)
+    // rounded up to a segment. Anything above *that* is a different violation and
+    // is reported under an operation of its own, which K01 does not cover.
+    if !logic.sharded() && n > 100_000 && n <= 800_000 {
+        let ck = 0.168 + 300000f64.ln().ln() / (n as f64 + 200000.).ln().ln();
+        let known_cells = (ck * n as f64).ceil() as usize + doc_seg(logic, n) + 16;
+        let known_bits = known_cells * b + 3 * 64;
+        c.check("mem_size_above_known_excess", bits <= known_bits, || {
+            format!(
+                "{} with {} over {} keys, {}-bit values: heap {} bits = {:.4} n b (about {} cells), above even the excess recorded as K01 ({} cells = ceil({:.4} n) + one segment of {} + 16)",
+                kind.name(),
+                logic.name(),
+                n,
+                b,
+                bits,
+                bits as f64 / (n.max(1) * b) as f64,
+                bits / b,
+                known_cells,
+                ck,
+                doc_seg(logic, n)
+            )
+        });
+    }
     c.check("mem_size", bits <= bound_bits, || {
         format!(
             "{} with {} over {} keys, {}-bit values: heap {} bits = {:.4} n b (about {} cells) > bound {} bits = ({} cells: ceil({} n) + {} shard(s) x {} segment(s) of {} + 16) x b + 3 words",
